@@ -5,6 +5,7 @@
 mod analysis;
 mod c02;
 mod c03;
+mod c04;
 mod driver;
 mod respparse;
 mod scenario;
@@ -51,6 +52,7 @@ impl explore::Scenario for Job {
         let mut violations = match self.prop.as_str() {
             "C02" => c02::check(&self.sc, &ex, &a),
             "C03" => c03::check(&self.sc, &ex, &a),
+            "C04" => c04::check(&self.sc, &ex, &a),
             _ => vec![],
         };
         if ex.horizon_hit {
@@ -59,6 +61,7 @@ impl explore::Scenario for Job {
         let nontrivial = match self.prop.as_str() {
             "C02" => c02::nontrivial(&ex, &a),
             "C03" => c03::nontrivial(&ex, &a),
+            "C04" => c04::nontrivial(&ex, &a),
             _ => false,
         };
         let sample = if ch.prefix_len() == 0 {
@@ -126,6 +129,13 @@ fn main() {
             (s, b, "fault_enumeration",
              "scenario = config (keep-alive, linger, half-close) x pipelined requests whose bodies look like requests x handler payload plan (read none/first/all, drop early/late/never, respond early/late) x arrival pattern of the remaining body bytes (with head / later / split / never); every execution with <= d non-default environment answers is run on the real h1::Dispatcher; non-trivial = a body-bearing request was answered or a response announced close",
              vec!["Date header values are masked", "a response 'announces close' when it carries an explicit Connection: close header or is a dispatcher-generated 4xx", "tokio LocalSet/timer internals are executed, not explored"])
+        }
+        "C04" => {
+            let s = c04::scenarios(&tier);
+            let b = s.iter().map(|x| c04::bound(x, &tier)).collect();
+            (s, b, "fault_enumeration",
+             "scenario = request stream (incl. >128 KiB bodies and 9000 pipelined requests) x handler/body programs (pending counts, slow reader, dropping reader, large streamed bodies) x peer plan; every execution with <= d non-default answers - read Pending/k bytes/EOF/reset, write Pending/1/half, flush and shutdown Pending, order of handler/body releases, peer half-close at any event boundary - is run on the real h1::Dispatcher, polled only when its waker fired; at every quiescent point a wake-less poll must change nothing (lost-wake-up probe); non-trivial = more than one socket write, an injected fault, or more than one quiescent point",
+             vec!["Date header values are masked", "handlers that hold a request payload forever are excluded (termination is not promised for them)", "a self-waking connection that makes no progress for 3 polls is de-prioritised (counted as spin)", "per-kind choice budgets bound the alternatives offered in very long executions (reported as executions_with_choice_budget_exhausted)"])
         }
         other => {
             eprintln!("MACHINERY: h1x does not serve {other}");
